@@ -64,6 +64,13 @@ func Main(t any, spec Spec) error {
 	if spec.ShrinkBudget == 0 {
 		spec.ShrinkBudget = 400
 	}
+	// one test function may serve several registered harnesses (same executions, different oracles)
+	if n := os.Getenv("VERIF_HARNESS"); n != "" {
+		spec.Harness = n
+	}
+	if n := os.Getenv("VERIF_PROPERTY"); n != "" {
+		spec.Property = n
+	}
 	params := map[string]string{}
 	if p := os.Getenv("VERIF_PARAMS"); p != "" {
 		if err := json.Unmarshal([]byte(p), &params); err != nil {
